@@ -231,8 +231,8 @@ def MState.onRequest (m : MState) (c : Nat) (r : Req) (ds : List Delivery) (outc
           | _ => m.bad "C16" "no-odal-state" "successful join without odal state"
         else m
       let m := (m.put s')
-      -- a measurement that was still running when its participant moved on is lost with the participant record: its
-      -- request is never answered (recorded finding F37b); one given up for a new measurement must be answered
+      -- a measurement that was still running when its participant moved on goes with the participant record: its request
+      -- must be answered CONFLICT, like one given up for a new measurement (F37b, repaired in /repo 5ff46d6)
       let m := match m.lats.find? (·.1 == c) with
         | some (_, l) =>
           if !l.done && !(own.any fun o => o == Out.error l.rid ecConflict) then
